@@ -191,15 +191,11 @@ theorem merge_update (new : Assign) (p c : RepDef) :
     (p.prod c).update new = (p.update new).prod (c.update new) :=
   prod_update new p c
 
-/-- the merged loop repeats parent × child times (raw values; see `merge_counts` for the clamped counts) -/
-theorem merge_raw (p c : RepDef) (a b : Int) (hp : p.raw = some a) (hc : c.raw = some b) :
-    (p.prod c).raw = some (a * b) :=
-  prod_raw p c a b hp hc
-
-/-- … so its count is the product of the counts unless both raw values are negative -/
-theorem merge_counts (p c : RepDef) (a b : Int) (hp : p.raw = some a) (hc : c.raw = some b)
-    (hnn : 0 ≤ a ∨ 0 ≤ b) : (p.prod c).intOf = .ok (a.toNat * b.toNat) := by
-  rw [intOf_of_raw _ _ (prod_raw p c a b hp hc), toNat_mul_of_nonneg a b hnn]
+/-- the merged loop repeats parent × child times, in all four cases of `_merge_single_child` and for all values
+(negative raw values are clamped factor by factor, as in the unmerged loops — PF-C15d repaired) -/
+theorem merge_counts (p c : RepDef) (a b : Nat) (hp : p.intOf = .ok a) (hc : c.intOf = .ok b) :
+    (p.prod c).intOf = .ok (a * b) :=
+  prod_counts p c a b hp hc
 
 /-- `cleanup()` commutes with updating -/
 theorem cleanup_update (new : Assign) (F : Forest) : cleanupF (F.update new) = (cleanupF F).update new :=
@@ -290,7 +286,7 @@ theorem update_eq_fresh_counterexample_zero_at_instantiation :
   ⟨_, _, rfl, rfl, by decide, by decide⟩
 
 /-- without `TableOK.consistent` (two positions sharing one table cell although their counts differ at the
-new constants — what the unrepaired table sharing PF-24 produced) the first position ends with the wrong value -/
+new constants — what the unrepaired table sharing PF-C15a produced) the first position ends with the wrong value -/
 theorem tabor_shared_cell_counterexample :
     ∃ new vpos cells i rd v, (i, rd) ∈ vpos ∧ (RepDef.update new rd).intOf = .ok v ∧
       (tableUpdate new vpos cells).1[i]? ≠ some v :=
@@ -300,10 +296,8 @@ theorem tabor_shared_cell_counterexample :
    [1], 0, .vol (.add (.mul (.var "n") (.var "i")) (.lit 1)) (.range (.dict [("n", 0)] ["n"]) "i" 0), 1,
    by simp, rfl, by decide⟩
 
-/-- two negative raw values: the merged definition multiplies before clamping (6 instead of 0·0) -/
-theorem merge_counts_counterexample_both_negative :
-    ∃ p c : RepDef, p.intOf = .ok 0 ∧ c.intOf = .ok 0 ∧ (p.prod c).intOf = .ok 6 :=
-  ⟨.vol (.var "a") (.dict [("a", -2)] ["a"]), .vol (.var "b") (.dict [("b", -3)] ["b"]),
-   rfl, rfl, rfl⟩
+/-- two negative raw values (PF-C15d witness): the merged count is 0 like the product of the unmerged counts -/
+example : ∃ p c : RepDef, p.intOf = .ok 0 ∧ c.intOf = .ok 0 ∧ (p.prod c).intOf = .ok 0 :=
+  ⟨.vol (.var "a") (.dict [("a", -2)] ["a"]), .vol (.var "b") (.dict [("b", -3)] ["b"]), rfl, rfl, rfl⟩
 
 end QP.Props.C15
